@@ -3,6 +3,7 @@
 -/
 import AcbModel.Lemmas.FxSpec
 import AcbModel.Lemmas.FxCivil
+import AcbModel.Lemmas.FxFile
 namespace Acb.Fx
 
 /-- New Year 2020 (JDN 2458850 = 2020-01-01): rates on Dec 30, Jan 2, Jan 3, Jan 6; today Jan 21. -/
@@ -147,5 +148,38 @@ def getEffectiveOld (e : Env) (s : St) (d : Int) : Except FxErr DailyRate × St 
   | (.error er, s') => (.error er, s')
   | (.ok (some r), s') => (.ok r, s')
   | (.ok none, s') => lookBackOld e 7 s' d
+
+/-! A date text whose laws are easy to prove (tally marks), for non-vacuity of C14. -/
+
+def tallyDateText : DateText :=
+  { render := fun d =>
+      if 2458850 ≤ d then 'p' :: List.replicate (d - 2458850).toNat 'x'
+      else 'n' :: List.replicate (2458850 - d).toNat 'x'
+    parse := fun s =>
+      match s with
+      | 'p' :: xs => if xs.all (· == 'x') then some (2458850 + (xs.length : Int)) else none
+      | 'n' :: xs => if xs.all (· == 'x') then some (2458850 - (xs.length : Int)) else none
+      | _ => none }
+
+theorem tallyDateText_ok : tallyDateText.OK := by
+  refine ⟨?_, ?_, ?_⟩
+  · intro d
+    by_cases h : 2458850 ≤ d
+    · simp [tallyDateText, h, List.all_replicate]; omega
+    · simp [tallyDateText, h, List.all_replicate]; omega
+  · intro d
+    by_cases h : 2458850 ≤ d <;> simp [tallyDateText, h, List.mem_replicate]
+  · intro d
+    by_cases h : 2458850 ≤ d <;> simp [tallyDateText, h, List.mem_replicate]
+
+/-- The year 2020 as the run of Jan 21 downloads and fills it (20 rows), with rate texts. -/
+def exRateText (r : Rat) : List Char :=
+  if r = 13/10 then "1.3".toList else if r = 131/100 then "1.31".toList
+  else if r = 7/5 then "1.4".toList else if r = 141/100 then "1.41".toList else "0".toList
+
+def exRows : List TextRow :=
+  (fillUnknown civil exEnvB.today
+      [⟨2458851, 13/10⟩, ⟨2458852, 131/100⟩, ⟨2458855, 7/5⟩, ⟨2458857, 141/100⟩] 2020).map
+    (fun (r : DailyRate) => TextRow.mk r.date (exRateText r.rate))
 
 end Acb.Fx
